@@ -71,7 +71,7 @@ func vxCompareImages(before, after []vxKV) {
 }
 
 func VxC04LegacyUpdateRevert() {
-	vx.Bound("legacy backend; block 0: deploy contract A, write one slot and the nonce (values symbolic, non-zero); block 1: sections {storage (written slot, never-written slot), nonce, replaced class, deployment of B with or without a nonce for B} each present or absent, every value symbolic (zero and unchanged values included); revert of block 1. Addresses/slots fixed.")
+	vx.Bound("legacy backend; block 0: deploy contract A, write one slot and the nonce (values symbolic, non-zero); block 1: sections {storage (written slot, never-written slot), nonce, replaced class, deployment of B with or without a nonce for B, a write to system contract 0x1 and/or 0x2} each present or absent, every value symbolic (zero and unchanged values included); revert of block 1. Addresses/slots fixed.")
 	vx.CollisionFree()
 	d := memory.New()
 	txn := d.NewIndexedBatch()
@@ -117,6 +117,20 @@ func VxC04LegacyUpdateRevert() {
 		if vx.Bool("deployedNonce") { // a deploy-account transaction also bumps the new account's nonce
 			diff1.Nonces[*a2] = vxFeltIn("nonceB")
 		}
+	}
+	// system contracts (0x1, 0x2) hold storage without being deployed by a diff: they are created on
+	// first write and purged again when a revert empties them
+	switch vx.Choice("sysWrite", 4) {
+	case 1:
+		diff1.StorageDiffs[*felt.NewFromUint64[felt.Felt](1)] = map[felt.Felt]*felt.Felt{*slotW: vxFeltIn("sys1")}
+		vx.Cover("system-contract-written")
+	case 2:
+		diff1.StorageDiffs[*felt.NewFromUint64[felt.Felt](2)] = map[felt.Felt]*felt.Felt{*slotW: vxFeltIn("sys2")}
+		vx.Cover("system-contract-written")
+	case 3:
+		diff1.StorageDiffs[*felt.NewFromUint64[felt.Felt](1)] = map[felt.Felt]*felt.Felt{*slotW: vxFeltIn("sys1")}
+		diff1.StorageDiffs[*felt.NewFromUint64[felt.Felt](2)] = map[felt.Felt]*felt.Felt{*slotW: vxFeltIn("sys2")}
+		vx.Cover("system-contract-written")
 	}
 	su1 := &core.StateUpdate{OldRoot: &r0, StateDiff: &diff1}
 	uerr := s.Update(&core.Header{Number: 1}, su1, nil, true)
